@@ -56,6 +56,11 @@ def case_array(ctx, rng, dormant=False):
     nd = rng.randint(1, 4)
     idx = [gen.rand_index(sr, rng, sym, maxd=2, dual={"all-ket": False, "all-bra": True}.get(pattern)) for _ in range(nd)]
     lab = gen.label_for(rng, rng.choice(["int", "tuple", "str"]))
+    if not dormant and rng.random() < 0.06:
+        # 6-8 legs, two charges of size one each: sectors with 6-8 odd charges
+        nd = rng.randint(6, 8)
+        idx = [gen.rand_index(sr, rng, sym, maxc=2, maxd=1, p_single=0.0, minc=2, dual={"all-ket": False, "all-bra": True}.get(pattern)) for _ in range(nd)]
+        ctx.count("feature", "six-or-more-legs")
     if dormant:
         # every leg lists the same charges (so the mirror image of a sector is a sector too);
         # after pending signs are created, one charge of one leg is removed WITHOUT synchronising
